@@ -173,6 +173,25 @@ def gen_fault(ch):
         return {'file': '\n'.join(parts), 'expect': expect, 'fault': kind, 'position': pos, 'count': len(parts)}
     elif kind == 'unknown-key':
         bad = ch.pick(['# author: "me" globally: no a', '# Id: p globally: no a', '# id p globally: no a', '# title: untitled globally: no a'])
+        if ch.bool():
+            # a key derived from a known one (a piece of it, one character more, other case, two glued), with either kind of value
+            base = ch.pick(['id', 'title', 'description'])
+            form = ch.int(0, 4)
+            if form == 0:
+                i = ch.int(0, len(base) - 1)
+                j = ch.int(i + 1, len(base))
+                key = base[i:j]
+            elif form == 1:
+                key = base + ch.pick(['s', 'x', '_', '1', 'id'])
+            elif form == 2:
+                key = ch.pick([base.upper(), base.capitalize()])
+            elif form == 3:
+                key = ch.pick(['i', 'd', 't', 'e']) + base
+            else:
+                key = ch.pick(['desc', 'ident', 'name', 'titles', 'idtitle'])
+            if key in ('id', 'title', 'description'):
+                key = 'x' + key
+            bad = f'# {key}: {ch.pick(["p", "name_1", "title", chr(34) + "text" + chr(34), chr(34) * 2])} globally: no a'
         expect = 'syntax'
         parts.insert(pos, bad)
     else:
